@@ -232,6 +232,22 @@ func runProp(id, tier string, rp *replayReq) int {
 			return 2
 		}
 	}
+	// VERIF_REPO=<dir> (used to run the checks against a seeded scratch worktree
+	// without touching /repo): the non-shim builds get a modfile whose replace
+	// directive points there.
+	altMod := ""
+	if repoDir != "/repo" {
+		mod, err := os.ReadFile(filepath.Join(verifDir, "go.mod"))
+		if err != nil {
+			fmt.Printf("BUILD-FAILED property=%s: %v\n", id, err)
+			return 2
+		}
+		re := regexp.MustCompile(`(?m)^replace github.com/esimov/gogu => .*$`)
+		altMod = filepath.Join(work, "alt.mod")
+		os.WriteFile(altMod, re.ReplaceAll(mod, []byte("replace github.com/esimov/gogu => "+repoDir)), 0o644)
+		sum, _ := os.ReadFile(filepath.Join(verifDir, "go.sum"))
+		os.WriteFile(filepath.Join(work, "alt.sum"), sum, 0o644)
+	}
 	type built struct {
 		bin string
 		err error
@@ -257,6 +273,8 @@ func runProp(id, tier string, rp *replayReq) int {
 			}
 			if v.Shim != "" {
 				args = append(args, "-modfile="+filepath.Join(work, "shim.mod"))
+			} else if altMod != "" {
+				args = append(args, "-modfile="+altMod)
 			}
 			args = append(args, p.Pkg)
 			cmd := exec.Command(goTool, args...)
